@@ -416,6 +416,9 @@ pub fn map_op<const N: usize>(cx: &mut Cx, m: &mut MapN<N>, op: &MapOp) -> Strin
                 m.retain(|k, v| {
                     tick();
                     log(Ev::Call(0));
+                    // the references the predicate receives point into the container
+                    cx.slot(k as *const Key as usize);
+                    cx.slot(v as *const Val as usize);
                     let keep = mask.checked_shr(k.p.cls as u32).unwrap_or(0) & 1 == 1;
                     if keep {
                         v.val += *bump;
@@ -562,6 +565,7 @@ pub fn map_op<const N: usize>(cx: &mut Cx, m: &mut MapN<N>, op: &MapOp) -> Strin
                 2 => go!(2),
                 3 => go!(3),
                 4 => go!(4),
+                200 => go!(200),
                 _ => "bad-arity".into(),
             }
         }
@@ -994,10 +998,10 @@ where
             }
             Cmd::Fold => {
                 let i = it.take().unwrap();
-                let mut acc: [Option<&Key>; 16] = [None; 16];
+                let mut acc: [Option<&Key>; 320] = [None; 320];
                 let n = mm(|| {
                     i.fold(0usize, |n, k| {
-                        if n < 16 {
+                        if n < 320 {
                             acc[n] = Some(k);
                         }
                         n + 1
@@ -1039,6 +1043,10 @@ pub fn set_alg<const N: usize, const M: usize>(
             alg_script(cx, it, script)
         }
     }
+}
+
+pub fn set_extend_from<const N: usize, const M: usize>(dst: &mut SetN<N>, src: SetN<M>) {
+    mm(|| dst.extend(src));
 }
 
 pub fn set_pred<const N: usize, const M: usize>(a: &SetN<N>, b: &SetN<M>, op: &SetOp) -> String {
@@ -1235,10 +1243,43 @@ pub fn umap_op<const N: usize>(cx: &mut Cx, m: &mut Map<Key, (), N>, op: &MapOp)
                 m.retain(|k, _| {
                     tick();
                     log(Ev::Call(0));
+                    cx.slot(k as *const Key as usize);
                     mask.checked_shr(k.p.cls as u32).unwrap_or(0) & 1 == 1
                 })
             });
             "()".into()
+        }
+        MapOp::Gdm(unchecked, _, ps) => {
+            let probes: Vec<HP> = ps.iter().map(|p| mk_probe(*p)).collect();
+            macro_rules! go {
+                ($j:literal) => {{
+                    let arr: [&Probe; $j] = std::array::from_fn(|i| match &probes[i] {
+                        HP::Q(p) => p,
+                        HP::Key(h) => &h.p,
+                    });
+                    let r = if *unchecked {
+                        mm(|| unsafe { m.get_disjoint_unchecked_mut(arr) })
+                    } else {
+                        mm(|| m.get_disjoint_mut(arr))
+                    };
+                    let items: Vec<String> = r
+                        .into_iter()
+                        .map(|o| match o {
+                            None => "-".to_string(),
+                            Some(u) => format!("+@{}=()", cx.slot_zst(u as *const () as usize)),
+                        })
+                        .collect();
+                    format!("[{}]", items.join(","))
+                }};
+            }
+            match probes.len() {
+                0 => go!(0),
+                1 => go!(1),
+                2 => go!(2),
+                3 => go!(3),
+                4 => go!(4),
+                _ => "bad-arity".into(),
+            }
         }
         MapOp::Clear => {
             mm(|| m.clear());
